@@ -48,7 +48,12 @@ def _perform_write(E, obj, args, kwargs, st, node):
                                                                          z3.Select(data.arrs[0], seqs._off(data.base, j - a_t)), z3.Select(mem.arrs[0], seqs._off(mem.base, j))),
                                           patterns=[z3.Select(r, j)]))
     newobj = obj.with_field("mem", SeqV(mem.length, mem.elem, [r], mem.kind, 0))
-    return [(s, n, newobj)]
+    fails = E.options.get("entry", {}).get("g_transfer_fails")
+    if fails is None:
+        return [(s, n, newobj)]
+    from pyvc.engine import Raised
+    from pyvc.values import ExcV
+    return [(s.assume(z3.Not(fails)), n, newobj), (st.assume(fails), Raised(ExcV("TransferError")), None)]
 
 
 EXTERNALS = {"OpaqueParent._perform_read": _perform_read, "OpaqueParent._perform_write": _perform_write}
@@ -105,6 +110,8 @@ class _Parent(object):
         return bytes(self.mem[addr:addr + size]) if addr >= 0 and size >= 0 else b"?" * max(size, 0)
 
     def _perform_write(self, addr, data):
+        if getattr(self, "fail_transfers", False):
+            raise TransferError()
         self.trace.append(("write", addr, len(data)))
         if addr >= 0:
             self.mem[addr:addr + len(data)] = data
@@ -193,12 +200,17 @@ class Read:
 @contract("rig/machine_control/machine_controller.py::SlicedMemoryIO.write")
 class Write:
     properties = ("C13",)
-    params = dict(self=VIEW, bytes=BYTES)
+    params = dict(self=VIEW, bytes=BYTES, g_transfer_fails=TBool())
     externals = EXTERNALS
-    raises = {"OSError": None}
+    raises = {"OSError": None, "TransferError": None}
 
-    def native(self, bytes):
-        return _run(self, lambda v: v.write(bytes))
+    def native(self, bytes, g_transfer_fails):
+        return _run(self, lambda v: v.write(bytes), fail_transfers=g_transfer_fails)
+
+    def raises_TransferError(self, self_post, g_transfer_fails):
+        # a write that the controller fails to carry out transferred nothing: the position stays, nothing else changed
+        return (g_transfer_fails and usable(self) and self_post._offset == self._offset and frame_view(self, self_post)
+                and forall_range(0, seq_len(self._parent.mem), lambda a: select(self_post._parent.mem, a) == select(self._parent.mem, a)))
 
     def requires(self, bytes):
         return inv(self)
